@@ -4,6 +4,7 @@ import (
 	"fmt"
 	"go/token"
 	"go/types"
+	"strings"
 
 	"golang.org/x/tools/go/ssa"
 )
@@ -346,6 +347,93 @@ func runC10(w *World, r *Report) {
 		}
 		if len(esc) == 0 {
 			r.OK("C10.build-snapshots", "HandlerBuilder.Build reads through its receiver only", build.Pos(), "the result holds a copy of *hb")
+		}
+	}
+
+	r.Rule("C10.self-reporting-ends-on-panic", "a component of the module that fires its own callbacks (IsCallbacksEnabled() == true, so the graph does not wrap it in runWithCallbacks) ends a unit it has started also when the work in between panics: every method of it that calls callbacks.OnStart defers a closure that recovers, reports through callbacks.OnError and panics again — what runWithCallbacks does for every other node", 1)
+	{
+		n := 0
+		for _, fn := range w.RepoFuncs("components", "flow", "schema") {
+			if fn.Signature.Recv() == nil || fn.Parent() != nil {
+				continue
+			}
+			recvT := namedOf(fn.Signature.Recv().Type())
+			if recvT == nil {
+				continue
+			}
+			obj, _, _ := types.LookupFieldOrMethod(types.NewPointer(recvT), true, recvT.Obj().Pkg(), "IsCallbacksEnabled")
+			mf, isF := obj.(*types.Func)
+			if !isF {
+				continue
+			}
+			ice := w.Prog.FuncValue(mf)
+			if ice == nil || ice.Blocks == nil {
+				continue
+			}
+			alwaysTrue := true
+			instrs(ice, func(in ssa.Instruction) {
+				if ret, ok := in.(*ssa.Return); ok {
+					if b, isC := constBool(ret.Results[0]); !isC || !b {
+						alwaysTrue = false
+					}
+				}
+			})
+			if !alwaysTrue {
+				continue
+			}
+			starts := false
+			instrs(fn, func(in ssa.Instruction) {
+				if calleeFullName(in) == modPath+"/callbacks.OnStart" || strings.HasPrefix(calleeFullName(in), modPath+"/callbacks.OnStart[") {
+					starts = true
+				}
+			})
+			if !starts {
+				continue
+			}
+			n++
+			good := false
+			instrs(fn, func(in ssa.Instruction) {
+				d, ok := in.(*ssa.Defer)
+				if !ok {
+					return
+				}
+				mc, ok := d.Call.Value.(*ssa.MakeClosure)
+				if !ok {
+					return
+				}
+				lit := mc.Fn.(*ssa.Function)
+				var rec ssa.Value
+				instrs(lit, func(x ssa.Instruction) {
+					if c, ok := x.(*ssa.Call); ok && isBuiltin(c, "recover") {
+						rec = c
+					}
+				})
+				if rec == nil {
+					return
+				}
+				// OnError and a re-panic on the recovered != nil side
+				onErr, repanic := false, false
+				instrs(lit, func(x ssa.Instruction) {
+					nonNil := hasGuard(x.Block(), func(g guard) bool { return guardNonNil(g, func(v ssa.Value) bool { return v == rec }) })
+					if !nonNil {
+						return
+					}
+					if strings.HasPrefix(calleeFullName(x), modPath+"/callbacks.OnError") {
+						onErr = true
+					}
+					if _, ok := x.(*ssa.Panic); ok {
+						repanic = true
+					}
+				})
+				if onErr && repanic {
+					good = true
+				}
+			})
+			r.Check(good, "C10.self-reporting-ends-on-panic", w.fname(fn)+" ends its unit when the work panics", fn.Pos(), "deferred recover -> callbacks.OnError -> panic again",
+				"a self-reporting component delivers OnStart, then a panic of the work in between (a template engine dividing by zero on the caller's variables, a user MessagesTemplate) unwinds through it: the handlers of the node see start and never end / error — a leaked span on every such failure — while a lambda node panicking at the same spot gets start + error from runWithCallbacks")
+		}
+		if n == 0 {
+			undecidedf("C10.self-reporting-ends-on-panic: no self-reporting component method calling callbacks.OnStart found")
 		}
 	}
 
